@@ -159,10 +159,24 @@ theorem actionRT_decNwTtl (ln : Nat) (hln : ln < 65536) :
   obtain ⟨h1, h2, h3⟩ := actionDecNwTtl_rt ln (.bytes []) hln
   exact ⟨h1, h2, by simp, by simp, h3⟩
 
-theorem actionRT_header (ty ln : Nat) (hty : ty < 65536) (hlook : actionTypeTable.lookup ty = some ActionHeader.zero)
+/-- the header-only actions (copy-ttl-out 11, copy-ttl-in 12, dec-mpls-ttl 16, pop-pbb 27) and dec-nw-ttl 24: every type
+    DecodeAction maps to `new(ActionDecNwTtl)`, 8 bytes -/
+theorem actionRT_hdrPad (ty ln : Nat) (hty : ty < 65536) (hlook : actionTypeTable.lookup ty = some ActionDecNwTtl.zero)
     (hln : ln < 65536) :
-    ActionRT (ActionHeader.mk ty ln) (be16 (n16 ty) ++ be16 (n16 ln)) := by
-  obtain ⟨h1, h2, h3⟩ := actionHeader_rt ty ln hty hlook hln
+    ActionRT (.obj "ActionDecNwTtl" [ActionHeader.mk ty ln, .bytes []]) (be16 (n16 ty) ++ be16 (n16 ln) ++ zeros 4) := by
+  obtain ⟨h1, h2, h3⟩ := actionHdrPad_rt ty ln (.bytes []) hty hlook hln
+  exact ⟨h1, h2, by simp, by simp, h3⟩
+
+theorem actionRT_mplsTtl (ln ttl : Nat) (hln : ln < 65536) (httl : ttl < 256) :
+    ActionRT (.obj "ActionMplsTtl" [ActionHeader.mk Gen.openflow13.ActionType_SetMplsTtl ln, .num ttl, .bytes []])
+      (be16 (n16 Gen.openflow13.ActionType_SetMplsTtl) ++ be16 (n16 ln) ++ [n8 ttl, 0, 0, 0]) := by
+  obtain ⟨h1, h2, h3⟩ := actionMplsTtl_rt ln ttl (.bytes []) hln httl
+  exact ⟨h1, h2, by simp, by simp, h3⟩
+
+theorem actionRT_nwTtl (ln ttl : Nat) (hln : ln < 65536) (httl : ttl < 256) :
+    ActionRT (.obj "ActionNwTtl" [ActionHeader.mk Gen.openflow13.ActionType_SetNwTtl ln, .num ttl, .bytes []])
+      (be16 (n16 Gen.openflow13.ActionType_SetNwTtl) ++ be16 (n16 ln) ++ [n8 ttl, 0, 0, 0]) := by
+  obtain ⟨h1, h2, h3⟩ := actionNwTtl_rt ln ttl (.bytes []) hln httl
   exact ⟨h1, h2, by simp, by simp, h3⟩
 
 theorem actionRT_setField (ln : Nat) (f : V) (hln : ln < 65536) (hf : MatchFieldWF f) :
